@@ -248,6 +248,32 @@ def pdom_height(ctx, prog):
                          if (lambda ee: ee[0] == "bin" and ee[1] == "Ge")(expr(F, F.blocks[sw]["term"]["on"], du))]
                     if g and c.dominates(t.bb, s.bb):
                         good = True
+            # the same accumulator written as a `let mut h` captured by reference: `*h = child.height() + 1`
+            for st in F.stmts():
+                if good or st.dst is None or F.is_cleanup(st.bb):
+                    continue
+                via_upvar = any("upvar#" in f for f in st.dst.fields())
+                if not via_upvar and st.dst.proj == ["deref"]:
+                    from .facts import Place as _P
+                    base = expr(F, _P({"local": st.dst.local, "proj": []}), du)
+                    via_upvar = base[0] == "field" and any("upvar#" in str(f) for f in base[2])
+                if not via_upvar:
+                    continue
+                rv = st.rv or {}
+                if "use" in rv:
+                    e = expr(F, rv["use"], du)
+                elif "bin" in rv:
+                    e = ("bin", rv["bin"][0], expr(F, rv["bin"][1], du), expr(F, rv["bin"][2], du))
+                else:
+                    continue
+                if e[0] == "field" and e[2] == ("0",):      # checked add: (value, overflow flag).0
+                    e = e[1]
+                if e[0] == "bin" and e[1] in ("Add", "AddWithOverflow") and e[3] == ("const", 1) and mentions(
+                        e[2], lambda y: y[0] == "call" and y[1].endswith("::height")):
+                    g = [sw for sw, can in c.controlling_switches(st.bb)
+                         if (lambda ee: ee[0] == "bin" and ee[1] == "Ge")(expr(F, F.blocks[sw]["term"]["on"], du))]
+                    if g and c.dominates(t.bb, st.bb):
+                        good = True
             root = prog.fn(F.root)
             sh = q.calls_in(root, "State::set_height")
             fc = q.calls_in(root, "ErasedNode>::foreach_child")
